@@ -64,7 +64,10 @@ def cli(kind="release"):
     cmd = ["cargo", "build", "--release", "--offline", "-p", "sfs-cli", "--manifest-path", manifest, "--target-dir", tdir]
     out = os.path.join(tdir, "release", "sfs")
     if kind == "ovf":
+        # the "checked" build: integer overflow traps everywhere; debug assertions - and with them the standard library's checks of
+        # the preconditions of unsafe functions (get_unchecked, set_len, copy_nonoverlapping, unwrap_unchecked, ...) - in the sfs crates
         env["RUSTFLAGS"] = "-C overflow-checks=on"
+        cmd += ["--config", "profile.release.package.sfs-core.debug-assertions=true", "--config", "profile.release.package.sfs-cli.debug-assertions=true"]
     elif kind == "asan":
         env["RUSTFLAGS"] = "-Zsanitizer=address -Cforce-frame-pointers=yes"
         cmd = ["cargo", "+nightly", "build", "--release", "--offline", "-p", "sfs-cli", "--manifest-path", manifest,
